@@ -39,6 +39,7 @@ def run(chk):
     )
     chk.not_decided = "equality of method / path / query / headers / body end to end, segmentation independence of the composition beyond the resumable-parser rules shared with C03 (C02.rx.*), compression transparency, Expect: 100-continue sequencing (the bulk of the property)."
     chk.explanation += " Also decided: the request-head parser's resumable-state rules (C02.rx.*, shared with C03), the multipart declared size (shared with C19) and `no body data on a response that must not have a body` (shared with C04) are evaluated here too. After the defect hunt: the client announces chunked framing whenever its writer will chunk-frame, and a caller-supplied Transfer-Encoding header switches the writer too."
+    chk.explanation += " Round 4 / second hunt: a file read loop is left early only on known size / declared length; end-of-body is signalled only at message completion; a HEAD response without framing headers keeps the connection on both ends; a caller-supplied Transfer-Encoding header reaches the framing decision also for body-less methods. Known: text-mode file size (F130)."
     hmod = repo.module(HELPERS)
     # ---- tables ---------------------------------------------------------------------------------------------
     try:
